@@ -76,7 +76,9 @@ func genC10(t *rapid.T, maxLines int, idx int) *c10Scenario {
 				sc.Lines = append(sc.Lines, c10Line{Len: rapid.SampledFrom([]int{50, 120}).Draw(t, "len")})
 			}
 			sc.ToggleAt = m
-			sc.Lines = append(sc.Lines, c10Line{Len: 10, GapMS: rapid.SampledFrom([]int{5000, 6000, 7000}).Draw(t, "idle")})
+			// with an idle period the lines after the toggle must NOT be held (the idle time counts as
+			// decay); without one they MUST be held (the penalty is still there)
+			sc.Lines = append(sc.Lines, c10Line{Len: 10, GapMS: []int{0, 6000}[(idx/6)%2]})
 			sc.OffAt = m + 1
 			for i, k := 0, rapid.IntRange(1, 2).Draw(t, "after"); i < k; i++ {
 				sc.Lines = append(sc.Lines, c10Line{Len: rapid.SampledFrom([]int{1, 50}).Draw(t, "len")})
